@@ -54,6 +54,7 @@ var (
 	workers  = flag.Int("workers", 8, "")
 	progress = flag.Bool("progress", false, "")
 	seed     = flag.Int("seed", 1, "")
+	soakN    = flag.Int("soak", 0, "run this many long size-profile histories instead of reading cases")
 	outMu    sync.Mutex
 	evals    atomic.Int64
 	nontriv  atomic.Int64
@@ -280,6 +281,10 @@ func run(c *Case) {
 
 func main() {
 	flag.Parse()
+	if *soakN > 0 {
+		soak(*soakN)
+		return
+	}
 	sc := bufio.NewScanner(os.Stdin)
 	sc.Buffer(make([]byte, 1<<20), 1<<26)
 	w := *workers
